@@ -2,6 +2,8 @@ import LocustModel.Store.Machine
 import LocustModel.Store.Spec
 import LocustModel.Lemmas.StoreDurableRun
 import LocustModel.Lemmas.StoreExample
+import LocustModel.Store.Interleave
+import LocustModel.Lemmas.StoreInterleave
 /-
   C13 — columns may come and go; the catalogue lists each exactly once.  Property theorems only.
   Histories, hypotheses and proof method as in Thm/C08.lean (invariant `Durable`; its clause `LogCat` says that
@@ -87,5 +89,49 @@ example : ∃ w, ParamsOk Ex.P0 ∧ HistWF Ex.opsA ∧ run Ex.P0 Ex.opsA (initWo
     (content w .metaTables).map listedTables =
       .ok [.tname (.user 1), .tname (.metaCols 1), .tname (.user 2), .tname (.metaCols 2)] ∧ w.lossy = false :=
   ⟨_, Ex.P0_ok, Ex.opsA_wf, rfl, rfl, rfl, rfl, rfl⟩
+
+/-- The same for INTERLEAVED histories (`Store/Interleave.lean`: a flush in its real steps, ingestion calls between any
+    two of them), at EVERY state — also in the middle of a flush: `_meta_tables` lists every table ever ingested (and
+    its column-catalogue table) exactly once, `_meta_columns_<n>` lists every column ever ingested into `n` exactly once. -/
+theorem C13_interleaved_catalogue_exact (P : Params ν κ) (hP : ParamsOk P) (ops : List (IOp ν κ)) (hwf : IHistWF ops)
+    (iw : IWorld ν κ) (hrun : irun P ops = .ok iw) :
+    (∃ (bs : List (Batch ν κ)) (L : List (TName ν)), content iw.w .metaTables = .ok bs ∧ listedTables bs = L.map Cell.tname ∧
+        L.Nodup ∧ ∀ t, t ∈ L ↔ ∃ n, (t = .user n ∨ t = .metaCols n) ∧ iacked ops (.user n) ≠ []) ∧
+    (∀ n, ∃ (bs : List (Batch ν κ)) (L : List (CName ν)), content iw.w (.metaCols n) = .ok bs ∧
+        listedColumns bs = L.map Cell.cname ∧ L.Nodup ∧ ∀ c, c ∈ L ↔ c ∈ namesIn (iacked ops (.user n))) := by
+  have hd := idurable_run P hP ops hwf iw hrun
+  have hlc := hd.logcat.whole
+  have huser : ∀ n, logOf (.user n) iw.w.log = iacked ops (.user n) := fun n => irun_log_user P n ops iw hrun
+  constructor
+  · obtain ⟨L, h1, h2, h3⟩ := hlc.tabs
+    refine ⟨_, L, hd.content .metaTables, h1, h2, fun t => ?_⟩
+    rw [h3 t]
+    constructor
+    · rintro ⟨hne, hlog⟩
+      cases t with
+      | user n => exact ⟨n, Or.inl rfl, by rw [← huser n]; exact hlog⟩
+      | metaTables => exact absurd rfl hne
+      | metaCols n =>
+        refine ⟨n, Or.inr rfl, ?_⟩
+        rw [← huser n]
+        exact fun e => hlog ((hlc.pair n).mp e)
+    · rintro ⟨n, ht | ht, hs⟩
+      · subst ht
+        refine ⟨(by intro e; cases e), ?_⟩
+        rw [huser n]; exact hs
+      · subst ht
+        refine ⟨(by intro e; cases e), ?_⟩
+        rw [← huser n] at hs
+        exact fun e => hs ((hlc.pair n).mpr e)
+  · intro n
+    obtain ⟨L, h1, h2, h3⟩ := hlc.cols n
+    refine ⟨_, L, hd.content (.metaCols n), h1, h2, fun c => ?_⟩
+    rw [h3 c, huser n]
+
+-- non-vacuity: in the middle of a flush (after batching, before persist_metastore) that overlapped `r2` and `r3`,
+-- the column catalogue of table 1 already lists 7, 8, 9 once each
+example : ∃ iw, IHistWF (Ex.iopsFlush.take 6) ∧ irun Ex.P0 (Ex.iopsFlush.take 6) = .ok iw ∧ iw.fl.isSome = true ∧
+    (content iw.w (.metaCols 1)).map listedColumns = .ok [.cname (.user 7), .cname (.user 8), .cname (.user 9)] :=
+  ⟨_, fun op h => Ex.iopsFlush_wf op (List.mem_of_mem_take h), rfl, rfl, rfl⟩
 
 end LM.C13
